@@ -101,9 +101,10 @@ func main() {
 	nHist, nBytes := 320, 120
 	maxRows, maxCols, maxFrames := 5, 10, 9
 	if cfg.Thorough() {
-		nHist, nBytes, maxRows, maxCols, maxFrames = 12000, 1500, 12, 40, 12
+		nHist, nBytes, maxRows, maxCols, maxFrames = 12000, 1200, 12, 40, 12
 	}
 	frames := 0
+	nBytesDone := 0
 	for h := 0; h < nHist; h++ {
 		styles = nil
 		rows, cols := 1+r.Intn(maxRows), 1+r.Intn(maxCols)
@@ -269,7 +270,14 @@ func main() {
 		}
 		caseTerm := fmt.Sprintf("Build_hcase %s %d %d %s %s", renderhx.Caps(vx), initRows, initCols, hx.List(wt), hx.List(fterms))
 		hx.WithTimeout(2*time.Second, vx.Close)
-		if h < nBytes {
+		rawTotal := 0
+		for _, rf := range rawFrames {
+			rawTotal += len(rf)
+		}
+		// (literal size bounds the cost of elaborating the case file: histories whose flushes print
+		// to more than 40k characters of Coq numerals are left to the token-level stream)
+		if nBytesDone < nBytes && rawTotal < 40000 {
+			nBytesDone++
 			sb.Add(hx.Tuple("("+caseTerm+")", hx.List(rawFrames)), map[string]interface{}{"caps_mask": mask, "rows": initRows, "cols": initCols, "frames": fjson},
 				nf > 2, fmt.Sprintf("frames=%d", nf))
 		}
